@@ -10,10 +10,10 @@ PID = "C09"
 
 def obligations(tier):
     obs = []
-    qs = (1, 2, 3) if tier == "quick" else (1, 2, 3, 4)
+    qs = (1, 2, 3, 4)
     for q in qs:
         sts = structures(q)
-        if q == 4:
+        if q == 4 and tier == "quick":
             # thorough: every structure on <= 5 currencies that is a tree or has the right count (the interesting ones), plus a slice of the rest
             keep = []
             for i, (pairs, base, k) in enumerate(sts):
@@ -192,7 +192,7 @@ def run(tier, seed):
         tot["undecided"].append(f"panic leaves: {tot['panics'][:3]}")
     ntree = sum(1 for o in base_obs if is_tree(o["pairs"], o["k"]))
     standard_finish(PID, ev, obs, results, tot, lambda f: {"site": "FXRates::try_new", "input_class": "tree" if "accepted" not in str(f.get("mismatch")) else "rejection"},
-                    bounds={"structures": f"{len(base_obs)} canonical quote-list structures with 1..{3 if tier == 'quick' else 4} quotes: EVERY choice of quoted pairs, orientation, quote order and base (up to renaming currencies; base = none or a currency inserted first), of which {ntree} are spanning trees (2..{4 if tier == 'quick' else 5} currencies) and the rest are under/over-specified, cyclic, repeated or inverse pairs",
+                    bounds={"structures": f"{len(base_obs)} canonical quote-list structures with 1..4 quotes (quick: of the 4-quote structures all with 5 currencies and every 23rd of the rest): EVERY choice of quoted pairs, orientation, quote order and base (up to renaming currencies; base = none or a currency inserted first), of which {ntree} are spanning trees (2..5 currencies) and the rest are under/over-specified, cyclic, repeated or inverse pairs",
                             "rates": "symbolic positive reals per quote", "settlement": "none / all equal (concrete and symbolic date) / mixed / different on a 3-currency chain",
                             "large_markets": "chain / star / pseudo-random tree (thorough: also star centred on the last currency and caterpillar) over " + ("6, 9, 12" if tier == "quick" else "6..13") + " currencies, mixed orientations, shuffled quote order, base none or a mid-list currency: one representative labelling each, NOT every tree of that size",
                             "outside": "every structure beyond 4 quotes (only the representative large markets above); rounding of crosses; integer overflow of the edge counters beyond 13 currencies (the i16 edge-matrix sum overflows at 182 currencies)"},
